@@ -28,7 +28,8 @@ TRUSTED_BASE = [
 ]
 ASSUMPTIONS = ["both functions use the same parameterisation (spline/spline or peatclsm/peatclsm), as in the shipped parameter files",
                "the curves observation file is the rise vector output followed by the recession vector output"]
-RULE = ("planted datasets with varying numbers of rise and recession levels x both parameterisations x 4-8 / 2-6 knots: "
+RULE = ("planted datasets with varying numbers of rise and recession levels (tens to hundreds; one dataset per quick run "
+        "with more than 10,000 of each) x both parameterisations x 4-8 / 2-6 knots: "
         "`spowtd pestfiles rise|curves ... tpl|ins|pst` compared line by line with the model; header counts, parameter "
         "names against placeholders, k-th observation against the measured master curve (exact read-back) and against "
         "the k-th instruction, the instruction file run (model runIns) on the real `simulate --observations` output, the "
@@ -77,32 +78,17 @@ def parse_pst(lines):
     return {"npar": hdr[0], "nobs": hdr[1], "npargp": hdr[2], "nobsgp": hdr[4], "sections": sec}
 
 
-def run(ctx):
-    common.import_spowtd()
-    warnings.simplefilter("ignore")
+def dataset_checks(ctx, tr, zstep, w, params_list, simulate=True):
     rng = ctx.rng
-    n = 5 if ctx.tier == "quick" else 40
     ob_files = "six generated PEST files = model (Model/Pest.lean) line by line"
     ob_ins = "instruction file run on the real simulate output (model runIns) returns the simulator's own vector"
-    for d_i in range(n):
-        tr = P.gen_truth(rng, noise=rng.choice([0.0, 0.4]), n_events=rng.randint(3, 7))
-        zstep = rng.choice([1.0, 2.0, 2.5])
-        w = P.run_workflow(ctx, tr.rows(), tr.s, tr.j, zstep, keep_db=True)
-        if w["status"].get("rise", ("x",))[0] != "ok" or w["status"].get("recession", ("x",))[0] != "ok":
-            P.cleanup(w)
-            continue
-        cli.run(["set-curvature", w["db"], "1.5"])
-        t = w["tables"]
-        rise_view = t["average_rising_depth"]
-        rec_view = sorted(t["average_recession_time"], reverse=True)
-        rise_vals = [r[1] for r in rise_view]
-        rec_vals = [r[1] / 86400.0 for r in rec_view]
-        levels = [r[0] for r in rise_view] + [r[0] for r in rec_view]
-        rec_levels = [r[0] for r in rec_view] or tr.level
-        for params in (sim.spline_params(rng, min(tr.level), max(tr.level)),
-                       # specific yield going negative inside the range of the recession curve itself
-                       sim.spline_params(rng, min(rec_levels), max(rec_levels) + 1.0, n_sy=rng.randint(6, 9), oscillating=True),
-                       sim.peatclsm_params(rng, max(tr.level))):
+    t = w["tables"]
+    rise_view = t["average_rising_depth"]
+    rec_view = sorted(t["average_recession_time"], reverse=True)
+    rise_vals = [r[1] for r in rise_view]
+    rec_vals = [r[1] / 86400.0 for r in rec_view]
+    levels = [r[0] for r in rise_view] + [r[0] for r in rec_view]
+    for params in params_list:
             inp = {"truth": tr.describe(), "zeta_step": zstep, "parameters": params}
             ctx.case(("c19", tr.describe(), str(params)), True)
             files, status = {}, {}
@@ -144,7 +130,7 @@ def run(ctx):
                 if wit:
                     break
             # ---- simulate output against the instruction file
-            if wit is None:
+            if wit is None and simulate:
                 r1, out_rise = sim.simulate_cli(ctx, "rise", w["db"], params, True)
                 r2, out_rec = sim.simulate_cli(ctx, "recession", w["db"], params, True)
                 r3, tab_rise = sim.simulate_cli(ctx, "rise", w["db"], params, False)
@@ -210,9 +196,80 @@ def run(ctx):
                                           "first_difference": {"file": "%s %s" % first, "line": line,
                                                                "impl": a[line] if line < len(a) else None,
                                                                "model": b[line] if line < len(b) else None}})
+
+
+def run(ctx):
+    common.import_spowtd()
+    warnings.simplefilter("ignore")
+    rng = ctx.rng
+    n = 5 if ctx.tier == "quick" else 40
+    for d_i in range(n):
+        tr = P.gen_truth(rng, noise=rng.choice([0.0, 0.4]), n_events=rng.randint(3, 7))
+        zstep = rng.choice([1.0, 2.0, 2.5])
+        w = P.run_workflow(ctx, tr.rows(), tr.s, tr.j, zstep, keep_db=True)
+        if w["status"].get("rise", ("x",))[0] != "ok" or w["status"].get("recession", ("x",))[0] != "ok":
+            P.cleanup(w)
+            continue
+        cli.run(["set-curvature", w["db"], "1.5"])
+        rec_levels = [r[0] for r in w["tables"]["average_recession_time"]] or tr.level
+        dataset_checks(ctx, tr, zstep, w, (
+            sim.spline_params(rng, min(tr.level), max(tr.level)),
+            # specific yield going negative inside the range of the recession curve itself
+            sim.spline_params(rng, min(rec_levels), max(rec_levels) + 1.0, n_sy=rng.randint(6, 9), oscillating=True),
+            sim.peatclsm_params(rng, max(tr.level))))
         P.cleanup(w)
+    for _ in range(1 if ctx.tier == "quick" else 4):
+        big_dataset(ctx)
     extract_stream(ctx, 2000 if ctx.tier == "quick" else 50000)
     float_roundtrip(ctx, 20000 if ctx.tier == "quick" else 200000)
+
+
+
+def big_dataset(ctx):
+    """A peat dome's record: metres of water-level range on a fine level grid, i.e. observation numbers of five
+    digits in the control files (the small datasets above never get past three)."""
+    rng = ctx.rng
+    dt = 3600
+    sy = 0.25
+    Z = [float(rng.randint(0, 40))]
+    for _ in range(760):
+        Z.append(Z[-1] - rng.choice([1.0, 1.5, 2.0]))
+    pos = 720
+    level, rain, events = [Z[pos]], [], []
+    for ev in range(rng.randint(2, 3)):
+        m = rng.randint(0, 12)
+        rise = Z[m] - Z[pos]
+        per = [round(rise / 2 * 8) / 8]
+        per.append(rise - per[0])
+        for p_ in per:
+            rain.append(sy * p_ * 3600.0 / dt)
+            level.append(level[-1] + p_)
+        pos = m
+        events.append(("storm", 2, m))
+        rain.append(0.25)
+        pos += 1
+        level.append(Z[pos])
+        L = rng.randint(690, 720)
+        for _ in range(L):
+            rain.append(0.0)
+            pos += 1
+            level.append(Z[pos])
+        events.append(("dry", L, pos))
+    rain = (rain + [0.0] * len(level))[:len(level)]
+    t0 = (rng.randint(631152000, 1893456000) // dt) * dt
+    tr = P.Truth(dt, t0, sy, Z, rain, level, [0.1, 0.2, 0.15], events, 0.25, 2.0)
+    zstep = rng.choice([0.1, 0.125])
+    w = P.run_workflow(ctx, tr.rows(), tr.s, tr.j, zstep, keep_db=True)
+    if w["status"].get("rise", ("x",))[0] != "ok" or w["status"].get("recession", ("x",))[0] != "ok":
+        ctx.count("big_dataset_without_master_curves")
+        P.cleanup(w)
+        return
+    cli.run(["set-curvature", w["db"], "1.5"])
+    ctx.count("big_dataset_rise_levels", len(w["tables"]["average_rising_depth"]))
+    ctx.count("big_dataset_recession_levels", len(w["tables"]["average_recession_time"]))
+    dataset_checks(ctx, tr, zstep, w, (sim.spline_params(rng, min(tr.level), max(tr.level)),
+                                      sim.peatclsm_params(rng, max(tr.level))), simulate=False)
+    P.cleanup(w)
 
 
 def extract_stream(ctx, n):
